@@ -29,8 +29,16 @@ def executable(raw, style):
     return [lex.executable_words(block, style) for block in lex.split_physical_lines(raw)]
 
 
-def run_case(style, entry, text):
-    st = Sut({"comment_symbols": style, "line_endings": "\n"})
+def run_case(style, entry, text, first_style=None):
+    """`first_style`: the builder is created with that style, emits one comment, and is switched to `style` at run time."""
+    if first_style is None:
+        st = Sut({"comment_symbols": style, "line_endings": "\n"})
+    else:
+        st = Sut({"comment_symbols": first_style, "line_endings": "\n"})
+        st.g.comment("warm up")
+        st.g.move(x=0, comment="warm up")
+        st.g.format.set_comment_symbols(style)
+        st.rec.take()
     try:
         ENTRIES[entry](st.g, text)
         exc = None
@@ -47,9 +55,10 @@ def strings(max_tokens, tokens):
 
 
 def _work(item):
-    style, entry, max_tokens, tokens = item
+    style, entry, max_tokens, tokens = item[:4]
+    first_style = item[4] if len(item) > 4 else None
     out = []
-    exc0, raw0 = run_case(style, entry, "x")
+    exc0, raw0 = run_case(style, entry, "x", first_style)
     base = executable(raw0, style)
     n = 0
     outcomes = set()
@@ -58,13 +67,13 @@ def _work(item):
         if text in seen:
             continue
         seen.add(text)
-        exc, raw = run_case(style, entry, text)
+        exc, raw = run_case(style, entry, text, first_style)
         n += 1
         outcomes.add(digest(raw))
         if exc is not None or exc0 is not None:
             if type(exc) is not type(exc0):
                 out.append((f"{entry}:raised", f"style {style!r} text {text!r}: raised {exc!r} (innocuous text: {exc0!r})",
-                            {"style": style, "entry": entry, "text": text}))
+                            {"style": style, "entry": entry, "text": text, "first_style": first_style}))
             continue
         got = executable(raw, style)
         if got != base:
@@ -73,9 +82,9 @@ def _work(item):
             else:
                 kind = "executable-words-changed"
             has_break = any(c in text for c in "\r\n")
-            out.append((f"{entry}:{kind}:{'line-break' if has_break else 'delimiter'}",
-                        f"style {style!r} text {text!r}: output {raw!r} executes {got}, with an innocuous comment {base}",
-                        {"style": style, "entry": entry, "text": text}))
+            out.append((f"{entry}:{kind}:{'line-break' if has_break else 'delimiter'}" + (":after-style-switch" if first_style else ""),
+                        f"style {style!r}{' (switched at run time from ' + repr(first_style) + ')' if first_style else ''} text {text!r}: output {raw!r} executes {got}, with an innocuous comment {base}",
+                        {"style": style, "entry": entry, "text": text, "first_style": first_style}))
     return n, out, outcomes
 
 
@@ -93,6 +102,12 @@ def run(tier, seed):
                 items.append((style, entry, 3, TOKENS))
                 if entry in ("comment", "move", "annotate"):
                     items.append((style, entry, 4, core[:12]))
+    # run-time style switches on a live builder (non-initial formatter state): every ordered pair of styles
+    for a in STYLES:
+        for b in STYLES:
+            if a != b:
+                for entry in (("comment", "move", "annotate", "emergency_halt") if tier == "quick" else list(ENTRIES)):
+                    items.append((b, entry, 2, CORE, a))
     results = pmap(_work, items, chunksize=1)
     total, outcomes = 0, set()
     for n, out, oc in results:
@@ -109,7 +124,7 @@ def run(tier, seed):
                  "as the same call with the text 'x'; distinct = distinct raw outputs"),
         "exhaustive": True,
         "exhaustive_note": "complete enumeration of the stated string grammar; other strings are not covered",
-        "spaces": [{"style": s, "entry": e, "max_tokens": m, "alphabet_size": len(t)} for s, e, m, t in items][:12] + [{"total_spaces": len(items)}],
+        "spaces": [{"style": i[0], "entry": i[1], "max_tokens": i[2], "alphabet_size": len(i[3]), "switched_from": (i[4] if len(i) > 4 else None)} for i in items][:12] + [{"total_spaces": len(items)}],
         "samples": [{"style": "(", "entry": "move", "text": "a)\nM3 S1"}, {"style": ";", "entry": "comment", "text": "\r\nG1 X9"}],
     }
     res.assumptions = ["a controller ends a block at CR LF, LF or CR; a delimited comment ends at the first closing delimiter",
@@ -119,9 +134,9 @@ def run(tier, seed):
 
 def replay(body):
     rp = body["replay"]
-    n, out, _ = _work((rp["style"], rp["entry"], 0, []))
-    exc, raw = run_case(rp["style"], rp["entry"], rp["text"])
-    exc0, raw0 = run_case(rp["style"], rp["entry"], "x")
+    fs = rp.get("first_style")
+    exc, raw = run_case(rp["style"], rp["entry"], rp["text"], fs)
+    exc0, raw0 = run_case(rp["style"], rp["entry"], "x", fs)
     got, base = executable(raw, rp["style"]), executable(raw0, rp["style"])
     v = [] if (got == base and type(exc) is type(exc0)) else [("differs", f"{raw!r} executes {got} vs {base}")]
     return {"output": raw, "executes": got, "baseline": base, "exception": repr(exc), "violations": v}
